@@ -120,73 +120,118 @@ func scanAggSym(c *core.Ctx) []ob {
 					}
 				}
 			}
+			// the value variable of a range is the element at the key: `for i, row := range m1` → row = m1[i]
+			if rs, ok := nd.(*ast.RangeStmt); ok && rs.Tok == token.DEFINE {
+				if vid, ok := rs.Value.(*ast.Ident); ok && vid.Name != "_" {
+					if kid, ok := rs.Key.(*ast.Ident); ok && kid.Name != "_" {
+						views[info.Defs[vid]] = &ast.IndexExpr{X: rs.X, Index: kid}
+					}
+				}
+			}
 			return true
 		})
 		covered := map[string]bool{}
 		var problems []string
 		nAdds, nDeleg := 0, 0
-		ast.Inspect(fd.Body, func(nd ast.Node) bool {
-			call, ok := nd.(*ast.CallExpr)
-			if !ok {
-				return true
-			}
-			sel, isSel := unparen(call.Fun).(*ast.SelectorExpr)
-			name := ""
-			if isSel {
-				name = sel.Sel.Name
-			} else if id, ok := unparen(call.Fun).(*ast.Ident); ok {
-				name = id.Name
-			}
-			if aggHelperDelegation(c, info, call, name, params, views, covered, &nAdds, &problems) {
-				return true
-			}
-			if !isSel {
-				return true
-			}
-			if name == "AggregateShares" && len(call.Args) == 3 {
-				var projs [3]string
-				for i, a := range call.Args {
-					pi, pr := aggProjection(info, a, params, views, 0)
-					if pi != i {
-						problems = append(problems, fmt.Sprintf("delegation passes %s as operand %d", exprString(a), i+1))
-					}
-					projs[i] = pr
+		var inspectCalls func(root ast.Node, depth int)
+		inspectCalls = func(root ast.Node, depth int) {
+			ast.Inspect(root, func(nd ast.Node) bool {
+				if _, isLit := nd.(*ast.FuncLit); isLit && nd != root {
+					return false // the body of a closure is looked at where the closure is called
 				}
-				if projs[0] != projs[1] || projs[1] != projs[2] {
-					problems = append(problems, fmt.Sprintf("delegation projects the operands differently: %q, %q, %q", projs[0], projs[1], projs[2]))
+				call, ok := nd.(*ast.CallExpr)
+				if !ok {
+					return true
 				}
-				nDeleg++
-				covered[firstField(projs[2])] = true
+				sel, isSel := unparen(call.Fun).(*ast.SelectorExpr)
+				name := ""
+				var ringRecv types.Type
+				if isSel {
+					name = sel.Sel.Name
+					ringRecv = info.TypeOf(sel.X)
+				} else if id, ok := unparen(call.Fun).(*ast.Ident); ok {
+					name = id.Name
+					if v, ok := info.Uses[id].(*types.Var); ok {
+						// a local that holds a method value of a ring (`add := ringQ.AtLevel(l).Add`)
+						if fn := localFnVals[v]; fn != nil {
+							name = fn.Name()
+							if sig, ok := fn.Type().(*types.Signature); ok && sig.Recv() != nil {
+								ringRecv = sig.Recv().Type()
+							}
+						}
+						// a closure of the function: its body with the parameters standing for the arguments
+						if lit := localFnLits[v]; lit != nil && depth < 2 {
+							i := 0
+							var bound []types.Object
+							for _, fl := range lit.Type.Params.List {
+								for _, nm := range fl.Names {
+									if o := info.Defs[nm]; o != nil && i < len(call.Args) {
+										views[o] = call.Args[i]
+										bound = append(bound, o)
+									}
+									i++
+								}
+							}
+							inspectCalls(lit.Body, depth+1)
+							for _, o := range bound {
+								delete(views, o)
+							}
+							return true
+						}
+					}
+				}
+				if aggHelperDelegation(c, info, call, name, params, views, covered, &nAdds, &problems) {
+					return true
+				}
+				if ringRecv == nil {
+					return true
+				}
+				if name == "AggregateShares" && len(call.Args) == 3 {
+					var projs [3]string
+					for i, a := range call.Args {
+						pi, pr := aggProjection(info, a, params, views, 0)
+						if pi != i {
+							problems = append(problems, fmt.Sprintf("delegation passes %s as operand %d", exprString(a), i+1))
+						}
+						projs[i] = pr
+					}
+					if projs[0] != projs[1] || projs[1] != projs[2] {
+						problems = append(problems, fmt.Sprintf("delegation projects the operands differently: %q, %q, %q", projs[0], projs[1], projs[2]))
+					}
+					nDeleg++
+					covered[firstField(projs[2])] = true
+					return true
+				}
+				// ring operations writing into out
+				if len(call.Args) >= 2 {
+					last := call.Args[len(call.Args)-1]
+					pi, pr := aggProjection(info, last, params, views, 0)
+					if pi == 2 && polyish(info.TypeOf(last)) {
+						rt := namedOf(ringRecv)
+						isRing := rt != nil && rt.Obj().Name() == "Ring"
+						if !isRing {
+							return true
+						}
+						if (name != "Add" && name != "AddLazy") || len(call.Args) != 3 {
+							problems = append(problems, fmt.Sprintf("%s writes the output share with %s instead of Add", exprString(call), name))
+							return true
+						}
+						p0, r0 := aggProjection(info, call.Args[0], params, views, 0)
+						p1, r1 := aggProjection(info, call.Args[1], params, views, 0)
+						okOps := (p0 == 0 && p1 == 1) || (p0 == 1 && p1 == 0)
+						if !okOps {
+							problems = append(problems, fmt.Sprintf("%s does not add one component of each input share", exprString(call)))
+						} else if r0 != pr || r1 != pr {
+							problems = append(problems, fmt.Sprintf("%s adds components %q and %q into component %q: not the same component of the three shares", exprString(call), r0, r1, pr))
+						}
+						nAdds++
+						covered[firstField(pr)] = true
+					}
+				}
 				return true
-			}
-			// ring operations writing into out
-			if len(call.Args) >= 2 {
-				last := call.Args[len(call.Args)-1]
-				pi, pr := aggProjection(info, last, params, views, 0)
-				if pi == 2 && polyish(info.TypeOf(last)) {
-					rt := namedOf(info.TypeOf(sel.X))
-					isRing := rt != nil && rt.Obj().Name() == "Ring"
-					if !isRing {
-						return true
-					}
-					if (name != "Add" && name != "AddLazy") || len(call.Args) != 3 {
-						problems = append(problems, fmt.Sprintf("%s writes the output share with %s instead of Add", exprString(call), name))
-						return true
-					}
-					p0, r0 := aggProjection(info, call.Args[0], params, views, 0)
-					p1, r1 := aggProjection(info, call.Args[1], params, views, 0)
-					okOps := (p0 == 0 && p1 == 1) || (p0 == 1 && p1 == 0)
-					if !okOps {
-						problems = append(problems, fmt.Sprintf("%s does not add one component of each input share", exprString(call)))
-					} else if r0 != pr || r1 != pr {
-						problems = append(problems, fmt.Sprintf("%s adds components %q and %q into component %q: not the same component of the three shares", exprString(call), r0, r1, pr))
-					}
-					nAdds++
-					covered[firstField(pr)] = true
-				}
-			}
-			return true
-		})
+			})
+		}
+		inspectCalls(fd.Body, 0)
 		// plain field copies out.f = sK.f  and guards
 		type copyInfo struct {
 			field string
@@ -251,8 +296,18 @@ func scanAggSym(c *core.Ctx) []ob {
 		for _, gc := range guardConds {
 			is := struct{ Cond ast.Expr }{gc.cond}
 			mentions := [3]bool{}
-			ast.Inspect(is.Cond, func(x ast.Node) bool {
-				if id, ok := x.(*ast.Ident); ok {
+			// what the condition looks at: the shares it names, those behind the locals it names (a level read
+			// earlier, a flag computed from a comparison) and those a closure predicate it calls looks at
+			var mentionIn func(e ast.Node, depth int)
+			mentionIn = func(e ast.Node, depth int) {
+				if e == nil || depth > 4 {
+					return
+				}
+				ast.Inspect(e, func(x ast.Node) bool {
+					id, ok := x.(*ast.Ident)
+					if !ok {
+						return true
+					}
 					o := info.Uses[id]
 					for i, p := range params {
 						if o == p {
@@ -260,49 +315,94 @@ func scanAggSym(c *core.Ctx) []ob {
 						}
 					}
 					if v, ok := views[o]; ok {
-						if pi, _ := aggProjection(info, v, params, views, 0); pi >= 0 {
-							mentions[pi] = true
+						mentionIn(v, depth+1)
+					}
+					if lv, ok := o.(*types.Var); ok {
+						if lit := localFnLits[lv]; lit != nil {
+							mentionIn(lit.Body, depth+1)
 						}
 					}
+					return true
+				})
+			}
+			mentionIn(is.Cond, 0)
+			// the comparisons that reject on their own: the condition itself, a disjunct of it, a conjunct of a negated
+			// conjunction (`!(a == b && a == c)`), through flags kept in locals (`ok := a.Equal(&b); !ok`). A comparison
+			// conjoined with further conditions — `a != b && a != 0 && b != 0` — lets mismatches through and does not count
+			agree := func(x, y ast.Expr) {
+				pa, ra := aggProjection(info, stripCalls(x), params, views, 0)
+				pb, rb := aggProjection(info, stripCalls(y), params, views, 0)
+				if (pa == 0 && pb == 1 || pa == 1 && pb == 0) && ra == rb {
+					guardBoth[ra] = true
 				}
-				return true
-			})
-			// the comparisons that reject on their own: the condition itself, or a disjunct of it (a comparison
-			// conjoined with further conditions — `a != b && a != 0 && b != 0` — lets mismatches through)
-			var effective func(e ast.Expr)
-			effective = func(e ast.Expr) {
+			}
+			var effective func(e ast.Expr, neg bool, depth int)
+			effective = func(e ast.Expr, neg bool, depth int) {
+				if depth > 6 {
+					return
+				}
 				e = unparen(e)
-				if be, ok := e.(*ast.BinaryExpr); ok && be.Op == token.LOR {
-					effective(be.X)
-					effective(be.Y)
-					return
-				}
-				if ue, ok := e.(*ast.UnaryExpr); ok && ue.Op == token.NOT {
-					// !a.Equal(&b)
-					if call, ok := unparen(ue.X).(*ast.CallExpr); ok {
-						if s, ok := unparen(call.Fun).(*ast.SelectorExpr); ok && s.Sel.Name == "Equal" && len(call.Args) == 1 {
-							pa, ra := aggProjection(info, s.X, params, views, 0)
-							pb, rb := aggProjection(info, call.Args[0], params, views, 0)
-							if (pa == 0 && pb == 1 || pa == 1 && pb == 0) && ra == rb {
-								guardBoth[ra] = true
-							}
+				switch v := e.(type) {
+				case *ast.Ident:
+					if d, ok := views[info.Uses[v]]; ok {
+						if b, ok := info.TypeOf(v).Underlying().(*types.Basic); ok && b.Kind() == types.Bool {
+							effective(d, neg, depth+1)
 						}
 					}
-					return
-				}
-				if be, ok := e.(*ast.BinaryExpr); ok && be.Op == token.NEQ {
-					pa, ra := aggProjection(info, stripCalls(be.X), params, views, 0)
-					pb, rb := aggProjection(info, stripCalls(be.Y), params, views, 0)
-					if (pa == 0 && pb == 1 || pa == 1 && pb == 0) && ra == rb {
-						guardBoth[ra] = true
+				case *ast.UnaryExpr:
+					if v.Op == token.NOT {
+						effective(v.X, !neg, depth+1)
+					}
+				case *ast.BinaryExpr:
+					switch {
+					case v.Op == token.LOR && !neg, v.Op == token.LAND && neg:
+						effective(v.X, neg, depth+1)
+						effective(v.Y, neg, depth+1)
+					case v.Op == token.NEQ && !neg, v.Op == token.EQL && neg:
+						agree(v.X, v.Y)
+					}
+				case *ast.CallExpr:
+					// !a.Equal(&b)
+					if s, ok := unparen(v.Fun).(*ast.SelectorExpr); ok && s.Sel.Name == "Equal" && len(v.Args) == 1 && neg {
+						agree(s.X, v.Args[0])
 					}
 				}
 			}
-			effective(is.Cond)
+			effective(is.Cond, false, 0)
 			if (mentions[0] || mentions[1]) && !(mentions[0] && mentions[1]) {
 				problems = append(problems, fmt.Sprintf("the guard `%s` mentions only one of the two input shares: a mismatched second share is never rejected", exprString(is.Cond)))
 			}
 		}
+		// a copy made in the branch where the two inputs were found equal (`if a == b { out = a; … }`)
+		ast.Inspect(fd.Body, func(nd ast.Node) bool {
+			is, ok := nd.(*ast.IfStmt)
+			if !ok {
+				return true
+			}
+			var eq func(e ast.Expr)
+			eq = func(e ast.Expr) {
+				e = unparen(e)
+				if be, ok := e.(*ast.BinaryExpr); ok {
+					switch be.Op {
+					case token.LAND:
+						eq(be.X)
+						eq(be.Y)
+					case token.EQL:
+						pa, ra := aggProjection(info, stripCalls(be.X), params, views, 0)
+						pb, rb := aggProjection(info, stripCalls(be.Y), params, views, 0)
+						if (pa == 0 && pb == 1 || pa == 1 && pb == 0) && ra == rb {
+							for _, cp := range copies {
+								if cp.field == ra && cp.pos >= is.Body.Pos() && cp.pos <= is.Body.End() {
+									guardBoth[ra] = true
+								}
+							}
+						}
+					}
+				}
+			}
+			eq(is.Cond)
+			return true
+		})
 		for _, cp := range copies {
 			if !guardBoth[cp.field] {
 				problems = append(problems, fmt.Sprintf("output field %s is copied from one input without first checking that both inputs agree on it", cp.field))
@@ -325,6 +425,35 @@ func scanAggSym(c *core.Ctx) []ob {
 			}
 		}
 		if nAdds+nDeleg == 0 {
+			// components selected through function values kept in data (a table of accessors): which component goes
+			// where is not code this rule can read — not decided rather than reported
+			opaque := false
+			ast.Inspect(fd.Body, func(nd ast.Node) bool {
+				call, ok := nd.(*ast.CallExpr)
+				if !ok || opaque {
+					return !opaque
+				}
+				if calleeFunc(info, call) != nil {
+					return true
+				}
+				if _, isSig := info.TypeOf(call.Fun).Underlying().(*types.Signature); !isSig {
+					return true
+				}
+				if se, ok := unparen(call.Fun).(*ast.SelectorExpr); ok {
+					if sel := info.Selections[se]; sel != nil && sel.Kind() == types.FieldVal {
+						for _, a := range call.Args {
+							if pi, _ := aggProjection(info, a, params, views, 0); pi >= 0 {
+								opaque = true
+							}
+						}
+					}
+				}
+				return true
+			})
+			if opaque {
+				out = append(out, infoOb("AGGSYM", key, pos, "the components of the shares are selected through function values kept in a table: not decided"))
+				return
+			}
 			problems = append(problems, "no component-wise Add and no delegation found")
 		}
 		if len(problems) == 0 {
